@@ -16,6 +16,7 @@ import os
 import common
 from common import coq_lit, Nat
 import c04_gen
+import c04_audit
 
 TOL64 = 1e-11
 TOL32 = 2e-5
@@ -30,6 +31,22 @@ SCALE_OPS = ('scale', 'rscale', 'div', 'iscale', 'iscale_prefactor', 'idiv')
 def cplx_flat(v):
     """value list of a block / scalar as (re, im) pairs (real data: im = 0)"""
     return [[x[0], x[1]] if isinstance(x, list) else [x, 0.0] for x in v]
+
+
+def cplx_same(xs, ys, tol):
+    """lists of (re, im) pairs (cplx_flat): equal up to tolerance; a number with a NaN component is NaN as a whole (np.isnan), so
+    (nan, 0) and (nan, nan) -- real * nan versus complex * nan, both IEEE-correct -- are the same non-finite value"""
+    if len(xs) != len(ys):
+        return False
+    for (a, b), (c, d) in zip(xs, ys):
+        na, nc = (a != a or b != b), (c != c or d != d)
+        if na or nc:
+            if na != nc:
+                return False
+            continue
+        if not (num_same(a, c, tol) and num_same(b, d, tol)):
+            return False
+    return True
 
 
 def num_same(x, y, tol):
@@ -56,7 +73,7 @@ def obs_diff(a, b, path=''):
                     elif [x[1] for x in ba] != [x[1] for x in bb]:
                         out.append(path + '/block-shapes')
                     else:
-                        if not all(num_same(cplx_flat(x[2]), cplx_flat(y[2]), tol) for x, y in zip(ba, bb)):
+                        if not all(cplx_same(cplx_flat(x[2]), cplx_flat(y[2]), tol) for x, y in zip(ba, bb)):
                             out.append(path + '/block-values')
                         if [x[3] for x in ba] != [x[3] for x in bb]:
                             out.append(path + '/block-dtypes')
@@ -71,7 +88,7 @@ def obs_diff(a, b, path=''):
             tol = TOL32 if any(s in (a['dtype'], b['dtype']) for s in ('float32', 'complex64')) else TOL64
             if a['dtype'] != b['dtype']:
                 out.append(path + '/dtype')
-            if a['shape'] != b['shape'] or not num_same(cplx_flat(a['v']), cplx_flat(b['v']), tol):
+            if a['shape'] != b['shape'] or not cplx_same(cplx_flat(a['v']), cplx_flat(b['v']), tol):
                 out.append(path + '/value')
             return out
         out = []
@@ -168,6 +185,10 @@ def step_diff(p, y, rep=None):
 ALIAS_KEYS = ('shares', 'changed', 'side_effects', 'alias_err', 'ext_changed', 'ext_shares')
 
 
+# known differences after which the comparison of a program continues (the step only fails to produce a register nobody uses)
+INDEPENDENT_KEYS = ('C04:_tensordot_transpose_axes:axes=0:skip_arg_checks:py-raises-shape-mismatch',)
+
+
 def alias_only(diffs):
     return bool(diffs) and all(d in ('shares', 'changed', 'alias_err', 'ext_changed', 'ext_shares') or d.startswith('side_effects')
                                for d in diffs)
@@ -206,9 +227,20 @@ def selects_nothing(idx, shape):
     return False
 
 
-def classify(st, p, y, diffs):
+def classify(st, p, y, diffs, case=None):
     """stable match key: call site + structural condition of the operands + kind of difference"""
     op = st['op']
+    if op in ('tensordot', 'w_tensordot') and st.get('axes') == 0 and (case or {}).get('optimize') == 3 and diffs and \
+            diffs[0] == 'error-class' and p.get('error') == 'ValueError' and 'Shape mismatch' in p.get('msg', '') and 'error' not in y:
+        # F04.1: at optimization level 3 (skip_arg_checks) the Python twin of _tensordot_transpose_axes compares
+        # a.shape[-0:] (= the WHOLE shape) with b.shape[:0] = () for an outer product and raises; the compiled twin tests `axes > 0` first
+        return 'C04:_tensordot_transpose_axes:axes=0:skip_arg_checks:py-raises-shape-mismatch'
+    if op == 'iadd_prefactor_other' and diffs == ['error-class'] and p.get('error') == 'ValueError' and \
+            p.get('msg', '').startswith('wrong argument types') and \
+            ('b_raw' in st or (isinstance(st.get('s'), list) and st['s'][0] == 'raw')):
+        # F04.2: only the Python twin validates its arguments (other must be an Array, prefactor a scalar)
+        return 'C04:iadd_prefactor_other:argument-types-checked-in-python-only'
+
     pre = p.get('pre', {})
     A, B = pre.get('a'), pre.get('b')
     zero_size = any(x and x.get('zero_size') for x in (A, B))
@@ -226,7 +258,7 @@ def classify(st, p, y, diffs):
         return 'C04:inner:scalar-dtype:integer-operands'
     if op == 'w_tensordot' and diffs == ['res/items[3]/dtype'] and A and B and A['dtype'] == 'int64' and B['dtype'] == 'int64':
         return 'C04:inner:scalar-dtype:integer-operands'
-    if op == 'iadd_prefactor_other' and st['a'] == st['b'] and isinstance(st.get('s'), list):
+    if op == 'iadd_prefactor_other' and st['a'] == st.get('b') and isinstance(st.get('s'), list) and st['s'][0] == 'c':
         return 'C04:iadd_prefactor_other:self-aliased-operand:complex-prefactor'
     if op == 'getitem' and 'error-class' in diffs and y.get('error') == 'IndexError' and 'with size 0' in y.get('msg', '') and \
             p.get('error') != 'IndexError' and A and selects_nothing(st['idx'], A['shape']):
@@ -282,7 +314,7 @@ def run_mixed(ctx, items, nchunks=None):
     chunks = [items[i::n] for i in range(n)]
     jobs = [(cfg, i) for i in range(n) for cfg in ('py', 'cy') if chunks[i]]
     with ThreadPoolExecutor(max_workers=len(jobs)) as ex:
-        futs = [ex.submit(common.run_impl, 'c04_impl.py', {'kind': 'mixed', 'cases': [list(x) for x in chunks[i]]}, cfg)
+        futs = [ex.submit(common.run_impl, 'c04_impl.py', {'kind': 'mixed', 'cases': [list(x) for x in chunks[i]], 'cov': True}, cfg)
                 for cfg, i in jobs]
         res = [f.result() for f in futs]
     out = {'py': [None] * len(items), 'cy': [None] * len(items)}
@@ -299,7 +331,11 @@ def run_mixed(ctx, items, nchunks=None):
         if not os.path.realpath(info.get('npc_file', '')).startswith(os.path.realpath(common.REPO)):
             ctx.fail('correspondence', 'configuration %s imported tenpy from %s, not from %s' % (cfg, info.get('npc_file'), common.REPO), None)
             return None, None
+        cov = info.pop('cov', None)
+        prev = infos.get(cfg, {}).get('cov')
         infos[cfg] = info
+        if cov is not None:
+            infos[cfg]['cov'] = c04_audit.merge_cov(prev, cov)
         for j, x in enumerate(r['results']):
             out[cfg][i + n * j] = x
     return out, infos
@@ -322,6 +358,15 @@ def view_steps(c, y):
     return out
 
 
+def sub_case(c, upto=None):
+    """the part of a program that is recorded with a failure (replayable): steps up to `upto`, plus the case-level switches"""
+    d = {'mods': c['mods'], 'pool': c['pool'], 'steps': c['steps'] if upto is None else c['steps'][:upto + 1]}
+    for k in ('optimize', 'unspecified'):
+        if k in c:
+            d[k] = c[k]
+    return d
+
+
 def compare_programs(ctx, stream, cases, out, nontrivial=None):
     nd = 0
     opstat = ctx.cov.setdefault('input_distribution', {}).setdefault(stream, {})
@@ -342,6 +387,7 @@ def compare_programs(ctx, stream, cases, out, nontrivial=None):
             nd += 1
             continue
         first = None
+        more = []
         rep = doc_alias_classes(c['steps'])
         for si, (st, a, b) in enumerate(zip(c['steps'], p['steps'], y['steps'])):
             k = st['op'] + ('!' if 'error' in a else '')
@@ -355,13 +401,22 @@ def compare_programs(ctx, stream, cases, out, nontrivial=None):
             if d == ['shares']:
                 continue
             if d:
+                if classify(st, a, b, d, c) in INDEPENDENT_KEYS and len(c['steps']) > si + 1:
+                    # a known difference whose (failed) result no later step uses: report it and keep comparing the rest of the program
+                    more.append((si, st, undocumented(a, rep), undocumented(b, rep), d))
+                    continue
                 first = (si, st, undocumented(a, rep), undocumented(b, rep), d)
                 break
         if first is None and len(p['steps']) == len(y['steps']):
-            fd = [] if p['final'] == y['final'] else obs_diff(p['final'], y['final'], 'final')
+            # registers named in c['unspecified'] are shallow copies whose partner was written to in place AFTER the copy: their state
+            # is documented as unspecified (Array.copy), only the receiver of the write is compared
+            uns = set(c.get('unspecified', [])) | {m[0] for m in more}
+            pf = [None if i in uns else x for i, x in enumerate(p['final'])]
+            yf = [None if i in uns else x for i, x in enumerate(y['final'])]
+            fd = [] if pf == yf else obs_diff(pf, yf, 'final')
             if fd:
                 ctx.fail('oracle', 'operands left in different states by the two configurations: %s' % fd[:6],
-                         {'stream': stream, 'case': c, 'py_final': p['final'], 'cy_final': y['final']},
+                         {'stream': stream, 'case': sub_case(c), 'py_final': p['final'], 'cy_final': y['final']},
                          match_key='C04:final-state:' + ','.join(sorted(set(x.split('/')[-1] for x in fd)))[:60])
                 nd += 1
         nontriv = any(s['op'] != 'new' and 'error' not in r and 'skipped' not in r for s, r in zip(c['steps'], p['steps']))
@@ -373,15 +428,15 @@ def compare_programs(ctx, stream, cases, out, nontrivial=None):
                 si = bad[0][0]
                 ctx.fail('oracle', 'step %d (%s): the %s configuration modified an ndarray owned by the caller (argument of '
                          'Array.from_ndarray, which documents a copy)' % (si, c['steps'][si]['op'], cfg),
-                         {'stream': stream, 'case': {'mods': c['mods'], 'pool': c['pool'], 'steps': c['steps'][:si + 1]}, 'step': si},
+                         {'stream': stream, 'case': sub_case(c, si), 'step': si},
                          match_key='C04:%s:caller-buffer-modified' % c['steps'][si]['op'])
                 nd += 1
         ctx.count(stream, c, nontrivial=nontriv,
                   sample={'ops': [s['op'] for s in c['steps']], 'mods': c['mods'], 'pool': c['pool']})
-        if first is not None:
+        for first in more + ([first] if first is not None else []):
             si, st, a, b, d = first
             nd += 1
-            key = classify(st, a, b, d)
+            key = classify(st, a, b, d, c)
             if os.environ.get('C04_DEBUG') and os.environ['C04_DEBUG'] in key:
                 print('DEBUG', stream, key, d, json.dumps(c['steps'][:si + 1])[-700:], json.dumps(a.get('pre')), '\nPY', json.dumps(a.get('recv') or a.get('res') or a.get('error'))[:300], '\nCY', json.dumps(b.get('recv') or b.get('res') or b.get('error'))[:300])
             lay = {k: v.get('layout') for k, v in (b.get('pre') or {}).items() if v.get('layout') and v['layout'][0]}
@@ -390,7 +445,7 @@ def compare_programs(ctx, stream, cases, out, nontrivial=None):
                 how = '; operand blocks not C-contiguous before the step (compiled run): %s' % ', '.join(
                     '%s: %d block(s), %d with gaps' % (k, v[0], v[1]) for k, v in sorted(lay.items()))
             ctx.fail('oracle', 'step %d (%s) differs between the configurations in %s; %s%s [%s]' % (si, st['op'], d[:6], blame(a, b), how, key),
-                     {'stream': stream, 'case': {'mods': c['mods'], 'pool': c['pool'], 'steps': c['steps'][:si + 1]},
+                     {'stream': stream, 'case': sub_case(c, si),
                       'step': si, 'py': a, 'cy': b, 'how': 'harness/impl/c04_impl.py kind=programs in both configurations'},
                      match_key=key)
     return nd
@@ -424,9 +479,12 @@ def gen_kernel_cases(rng, n):
                 if rows and mods and rng.random() < 0.3:
                     i, j = rng.randrange(len(rows)), rng.randrange(len(mods))
                     rows[i][j] = rng.choice([-1, mods[j], mods[j] - 1, 0])                       # boundary values
+            # argument forms: make_valid takes any array_like (list / tuple / int64 or int32 ndarray, C-contiguous, Fortran-ordered or a
+            # strided view); check_valid a 2D int64 ndarray of any memory layout
+            forms = ['array', 'array', 'list', 'tuple', 'array32', 'strided', 'F'] if f == 'make_valid' else ['array', 'array', 'strided', 'F']
             cases.append({'f': f, 'mods': mods, 'charges': rows[0] if one_d else rows,
                           'shape': [len(mods)] if one_d else [len(rows), len(mods)],
-                          'as': rng.choice(['array', 'array', 'list']) if (rows and mods) else 'array', 'rows': rows})
+                          'as': rng.choice(forms) if (rows and mods) else 'array', 'rows': rows})
         elif r < 0.55:
             M = rng.choice([0, 1, 1, 2, 3])
             L = rng.choice([0, 1, 2, 3, 5, 8, 12])
@@ -437,7 +495,7 @@ def gen_kernel_cases(rng, n):
                     rows.append(list(rows[-1]))
                 else:
                     rows.append(list(rng.choice(pool)))
-            cases.append({'f': 'find_row_differences', 'q': rows, 'shape': [L, M]})
+            cases.append({'f': 'find_row_differences', 'q': rows, 'shape': [L, M], 'as': rng.choice(['array', 'array', 'strided', 'F'])})
         elif r < 0.7:
             bs = [rng.choice([0, 1, 1, 2, 3, 5]) for _ in range(rng.choice([0, 1, 2, 3, 5, 8]))]
             cases.append({'f': 'map_blocks', 'bs': bs})
@@ -447,9 +505,9 @@ def gen_kernel_cases(rng, n):
                 shape = [rng.randint(1, 2 ** 20) for _ in range(min(L, 3))]
             else:
                 shape = [rng.choice([0, 1, 1, 2, 3, 4, 7]) if rng.random() < 0.9 else 1 for _ in range(L)]
-            cases.append({'f': 'make_stride', 'shape': shape, 'cstyle': rng.random() < 0.5})
+            cases.append({'f': 'make_stride', 'shape': shape, 'cstyle': rng.random() < 0.5, 'as': rng.choice(['list', 'list', 'tuple', 'ndarray'])})
         else:
-            nd = rng.choice([1, 2, 3, 3, 4, 5, 6])
+            nd = rng.choice([1, 2, 3, 3, 4, 5, 6, 7, 8])
             sl = [rng.choice([0, 1, 1, 2, 3]) if rng.random() < 0.95 else 0 for _ in range(nd)]
             dbeg = [rng.randint(0, 2) for _ in range(nd)]
             sbeg = [rng.randint(0, 2) for _ in range(nd)]
@@ -468,11 +526,38 @@ def gen_kernel_cases(rng, n):
     return cases
 
 
+def forced_kernel_cases():
+    """seed-independent helper calls for input classes that random draws hit rarely (see c04_audit.REQUIRED / PYX_TABLE)"""
+    cs = []
+    for nd in (1, 2, 3, 4):          # copies of whole arrays, with and without explicit offsets
+        for begs in (None, [0] * nd):
+            cs.append({'f': 'sliced_copy', 'dshape': [2, 3, 1, 2][:nd], 'sshape': [2, 3, 1, 2][:nd], 'dbeg': begs, 'sbeg': None if begs else [0] * nd,
+                       'sl': [2, 3, 1, 2][:nd], 'dtype': ['float64', 'complex128', 'float32', 'int64'][nd - 1]})
+    for form in ('array', 'strided', 'F'):
+        # check_valid: the first row / the first column is valid, a later one is not; the boundary values 0, mod - 1, mod, -1
+        for rows in ([[0, 2], [1, 3]], [[1, 0], [2, -1]], [[0, 0], [2, 2]], [[2, 1], [0, 2]], [[0, 3], [0, 0]], [[0, 1], [-1, 0]]):
+            cs.append({'f': 'check_valid', 'mods': [3, 3], 'charges': rows, 'shape': [2, 2], 'as': form, 'rows': rows})
+        cs.append({'f': 'check_valid', 'mods': [1, 4], 'charges': [[7, 3], [-5, 4]], 'shape': [2, 2], 'as': form, 'rows': [[7, 3], [-5, 4]]})
+        cs.append({'f': 'find_row_differences', 'q': [[0, 1], [0, 1], [0, 2], [1, 2]], 'shape': [4, 2], 'as': form})
+        cs.append({'f': 'find_row_differences', 'q': [], 'shape': [0, 2], 'as': form})
+    for form in ('array', 'list', 'tuple', 'array32', 'strided', 'F'):
+        rows = [[5, -1], [-4, 3], [2, 0]]
+        cs.append({'f': 'make_valid', 'mods': [2, 3], 'charges': rows, 'shape': [3, 2], 'as': form, 'rows': rows})
+        cs.append({'f': 'make_valid', 'mods': [1, 4], 'charges': rows[0], 'shape': [2], 'as': form, 'rows': rows[:1]})
+    for form in ('list', 'tuple', 'ndarray'):
+        for shape in ([3], [2, 0, 3], [4, 1, 2, 5]):
+            for cst in (True, False):
+                cs.append({'f': 'make_stride', 'shape': shape, 'cstyle': cst, 'as': form})
+    return cs
+
+
 def gen_pipe_cases(rng, n):
     cases = []
     for _ in range(n):
         mods = c04_gen.gen_mods(rng)
         legs = [c04_gen.gen_leg(rng, mods, empty_blocks=False) for _ in range(rng.choice([1, 2, 2, 3]))]
+        if rng.random() < 0.08:                        # one block per leg: a pipe with a single block
+            legs = [dict(l, sizes=l['sizes'][:1], charges=l['charges'][:1]) for l in legs]
         cases.append({'f': 'pipe', 'mods': mods, 'legs': legs, 'qconj': rng.choice([1, -1]), 'sort': rng.random() < 0.8,
                       'bunch': rng.random() < 0.8})
     return cases
@@ -693,6 +778,70 @@ def coq_kernel_case2(c, out):
 
 
 # ------------------------------------------------------------------------------------------------
+# coverage audit (tables of harness/c04_audit.py against the input recorders / line recording of harness/impl/c04_cov.py)
+# ------------------------------------------------------------------------------------------------
+
+def coverage_tables(ctx, infos):
+    """every hole is a correspondence failure: a pair of the source unknown to the check, a function / branch condition of the .pyx
+    that is not classified or whose input class never occurred (compiled configuration), a required input class of a pair that did
+    not occur in one of the configurations, an unexecuted line of a Python twin"""
+    audit = ctx.cov.setdefault('coverage_audit', {})
+    problems = []
+    pairs, pr = c04_audit.enumerate_pairs(common.REPO)
+    problems += pr
+    cov = {cfg: (infos.get(cfg) or {}).pop('cov', None) or {} for cfg in ('py', 'cy')}
+    for cfg in ('py', 'cy'):
+        if cov[cfg].get('install_problems'):
+            problems.append('%s: recorders not installed: %s' % (cfg, cov[cfg]['install_problems']))
+        if cov[cfg].get('aux_errors'):
+            problems.append('%s: coverage collection failed: %s' % (cfg, cov[cfg]['aux_errors'][0][-300:]))
+        bad = sorted({'%s|%s' % (p, t) for p, d in (cov[cfg].get('tags') or {}).items() for t in d
+                      if t.startswith(('classifier-failed', 'arg=unclassified'))})
+        audit['unclassified_inputs_' + cfg] = bad
+    audit['pairs'] = {}
+    for name, info in sorted(pairs.items()):
+        calls = {cfg: sum(((cov[cfg].get('tags') or {}).get(name, {}).get('calls') or {}).values()) for cfg in ('py', 'cy')}
+        streams = sorted(((cov['cy'].get('tags') or {}).get(name, {}).get('calls') or {}))
+        audit['pairs'][name] = {'python': '%s:%d' % (info['file'], info['line']), 'compiled': info['replacement'], 'calls_py': calls['py'],
+                                'calls_cy': calls['cy'], 'compared_in_streams': streams, 'how': c04_audit.PAIRS.get(name)}
+        for cfg in ('py', 'cy'):
+            if calls[cfg] == 0:
+                problems.append('pair %s was never called in the %s configuration' % (name, cfg))
+    # branch structure of the .pyx against the input classes of the compiled configuration
+    rows, n, pr = c04_audit.eval_branches(c04_audit.pyx_branches(common.REPO), cov['cy'].get('tags') or {})
+    problems += pr
+    audit['pyx_branches'] = n
+    audit['pyx_branch_table'] = [r for r in rows if r[4] not in ('compile-time',)]
+    # pair x input classes, both configurations
+    audit['input_classes'] = {}
+    nreq = nhit = 0
+    for cfg in ('py', 'cy'):
+        table, pr = c04_audit.eval_required(cov[cfg].get('tags') or {}, cfg)
+        problems += pr
+        for pair, row in table.items():
+            for g, (k, streams) in row.items():
+                e = audit['input_classes'].setdefault(pair, {}).setdefault(g, {})
+                e[cfg] = k
+                if cfg == 'cy':
+                    e['streams'] = streams
+                nreq += 1
+                nhit += k > 0
+    audit['input_classes_required'] = nreq
+    audit['input_classes_reached'] = nhit
+    # lines of the Python twins
+    table, pr = c04_audit.eval_lines(common.REPO, cov['py'])
+    problems += pr
+    audit['python_lines'] = {k: {'executable': v[0], 'executed': v[1], 'not_executed': v[2]} for k, v in table.items()}
+    audit['python_lines_total'] = [sum(v[1] for v in table.values()), sum(v[0] for v in table.values())]
+    audit['holes'] = len(problems)
+    for pb in problems[:12]:
+        ctx.fail('correspondence', 'coverage hole: ' + pb, None)
+    if len(problems) > 12:
+        ctx.fail('correspondence', 'coverage hole: %d more: %s' % (len(problems) - 12, ' || '.join(problems[12:40])[:3000]), None)
+    if os.environ.get('C04_COVDUMP'):
+        json.dump({'cov': cov, 'problems': problems}, open(os.environ['C04_COVDUMP'], 'w'))
+    return problems
+
 
 def main(ctx):
     rng = ctx.rng
@@ -723,7 +872,7 @@ def main(ctx):
         if any(0 in l['sizes'] for l in c['pool']):
             zs.append(c)
     # stream 4: helper functions called directly
-    kcases = gen_kernel_cases(rng, ctx.pick(2500, 20000) * mult) + gen_pipe_cases(rng, ctx.pick(250, 2000))
+    kcases = forced_kernel_cases() + gen_kernel_cases(rng, ctx.pick(2500, 20000) * mult) + gen_pipe_cases(rng, ctx.pick(250, 2000))
     # stream 4b: the merge loop of iadd_prefactor_other and itranspose, observed for the models of KernelsPyCy2/3.v
     kcases += gen_merge_cases(rng, ctx.pick(150, 1200) * mult) + gen_itrans_cases(rng, ctx.pick(150, 1200) * mult)
     # stream 5: tiny algorithm runs
@@ -745,13 +894,20 @@ def main(ctx):
     # larger buffer) as receivers and operands of every in-place and BLAS-backed kernel; the sliced source stays alive
     views = [c['case'] for c in common.corpus_cases('C04') if c.get('stream') == 'strided-views']
     views += [c04_gen.gen_strided_views(rng) for _ in range(ctx.pick(160, 1200) * mult)]
-    items = ([('algos', c) for c in algos] + [('programs', c) for c in cases + f5 + zs + chains + bfree + index + views]
-             + [('kernels', c) for c in kcases])
+    # stream 3f: the input classes of every function with a compiled twin, stratified (see c04_gen.gen_pair_classes, c04_audit)
+    pcs = [c['case'] for c in common.corpus_cases('C04') if c.get('stream') == 'pair-classes']
+    pcs += [c04_gen.gen_pair_classes(rng, i) for i in range(ctx.pick(360, 2880) * mult)]
+    prog_streams = [('programs', cases), ('permuted-label-sums', f5), ('zero-size-blocks', zs), ('inplace-chains', chains),
+                    ('blockfree-dtype', bfree), ('indexing', index), ('strided-views', views), ('pair-classes', pcs)]
+    items = ([('algos', c, 'algorithms') for c in algos] + [('programs', c, nm) for nm, cs in prog_streams for c in cs]
+             + [('kernels', c, 'kernels:' + c['f']) for c in kcases])
     allout, infos = run_mixed(ctx, items, nchunks=ctx.pick(6, 12))
     mark('both-configurations')
     if allout is None:
         return ctx.finish(RULE)
+    coverage_tables(ctx, infos)
     ctx.cov['configurations'] = infos
+    mark('coverage-tables')
 
     def part(lo, n):
         return {cfg: allout[cfg][lo:lo + n] for cfg in ('py', 'cy')}
@@ -779,6 +935,8 @@ def main(ctx):
         return bool(vs)
     ndiff += compare_programs(ctx, 'strided-views', views, part(o, len(views)), nontrivial=views_nontrivial)
     o += len(views)
+    ndiff += compare_programs(ctx, 'pair-classes', pcs, part(o, len(pcs)))
+    o += len(pcs)
     outk = part(o, len(kcases))
     # if something unexplained differs, intensify: as many programs again
     if ctx.violations and not ctx.thorough():
@@ -932,6 +1090,11 @@ def main(ctx):
         'C04: effects of in-place writes through shallow copies are excluded from the differential (documented as unspecified by Array.copy; '
         'they are the subject of C03); likewise the memory-sharing relation is diffed only for pairs of tensors that are NOT related by '
         'a documented shallow copy (copy(deep=False), sort_legcharge, unary_blockwise)',
+        'C04: non-finite values: prefactors are generated finite, and a complex entry with a NaN in either component counts as NaN as a '
+        'whole when results are compared (the Python twin multiplies real blocks by a real prefactor before promoting, the compiled twin '
+        'promotes first: nan + 0j versus nan + nan j, inf versus inf + nan j are both IEEE-correct images of the same non-finite number)',
+        'C04 coverage audit: the optimization level (tenpy.tools.optimization) is a second, documented global switch; valid programs are also '
+        'run at level 3 (skip_arg_checks), invalid programs only at the default level (level 3 documents undefined behaviour for them)',
         'C04: charges._sliced_copy is generated with ndim >= 1 only.  With ndim = 0 the helper differs (numpy copies the element, the '
         'compiled code returns at `if ndim < 1`; Coq witness T04_sliced_copy_rank0_refuted), but that input is outside the quantifier: '
         'its only callers (_combine_legs_worker, _split_legs_worker) pass blocks of an Array, the Array class rejects rank 0 '
